@@ -528,7 +528,7 @@ func runC19(r *Runner, g *Gen, tier string) string {
 	}
 	internLargeOps(r, scale(tier, 6, 200))
 	// thousands of distinct values through one field (beyond any table size limit one might pick)
-	for _, n := range []int{63, 64, 65, 255, 256, 257, 1023, 1025, scale(tier, 6000, 20000)} {
+	for _, n := range []int{63, 64, 65, 255, 256, 257, 1023, 1025, scale(tier, 10000, 70000)} {
 		r.Do(L(A("internmany"), A(fmt.Sprint(n))), true, "internmany")
 	}
 	internSchedOps(r, g, scale(tier, 600, 40000))
@@ -572,13 +572,18 @@ func internSchedOps(r *Runner, g *Gen, m int) {
 // then two goroutines racing on new and old values.
 func internLargeOps(r *Runner, count int) {
 	for k := 0; k < count; k++ {
+		n := 70 + k
+		if k%3 == 2 {
+			// beyond the sizes where a table implementation might change strategy
+			n = []int{258, 515, 1030, 130}[(k/3)%4] + k
+		}
 		var big []*Sexp
-		for v := 0; v < 70+k; v++ {
+		for v := 0; v < n; v++ {
 			big = append(big, A(hx([]byte(fmt.Sprintf("value-%03d", v)))))
 		}
 		t1 := []*Sexp{A(hx([]byte("value-001"))), A(hx([]byte("fresh-a"))), A(hx([]byte("value-069"))), A(hx([]byte("fresh-b")))}
 		var sch []*Sexp
-		for q := 0; q < 4*(70+k)+8+k; q++ {
+		for q := 0; q < 4*n+8+k; q++ {
 			sch = append(sch, A("0"))
 		}
 		for q := 0; q < 40; q++ {
